@@ -118,6 +118,18 @@ func ReplayStep(e *Env, step map[string]interface{}) string {
 		c = e.CreateIndex(ns, IndexSpec{Key: doc("key"), Name: a["name"].(string), Unique: a["unique"].(bool), Expire: int(a["exp"].(float64))})
 	case "dropIndex":
 		c = e.DropIndex(ns, a["name"].(string))
+	case "dropIndexByKey":
+		c = e.DropIndexByKey(ns, doc("key"))
+	case "createIndexes":
+		var specs []IndexSpec
+		for _, x := range asList(a["specs"]) {
+			m := asMap(x)
+			k, _ := decDoc(m["key"])
+			specs = append(specs, IndexSpec{Key: k, Name: m["name"].(string), Unique: m["unique"].(bool), Expire: int(m["exp"].(float64))})
+		}
+		c = e.CreateIndexes(ns, specs)
+	case "findOneAndUpdate":
+		c = e.FindOneAndUpdate(ns, doc("q"), doc("upd"), nil, nil, a["upsert"].(bool), a["after"].(bool), nil)
 	case "drop":
 		c = e.DropCollection(ns)
 	default:
@@ -133,9 +145,12 @@ func ReplayStep(e *Env, step map[string]interface{}) string {
 		return fmt.Sprintf("the call %s (%v) but the specification expects %s", outcome(res["err"].(bool)), res["msg"], outcome(want["err"].(bool)))
 	}
 	if !res["err"].(bool) || op == "insertMany" {
-		for _, k := range []string{"n", "ids", "names"} {
-			if op == "createIndex" && k != "names" {
+		for _, k := range []string{"n", "ids", "names", "docs"} {
+			if (op == "createIndex" || op == "createIndexes") && k != "names" {
 				continue
+			}
+			if (k == "docs") != (op == "findOneAndUpdate") {
+				continue // find-and-modify is judged by the returned image, the other calls by counts / ids / names
 			}
 			if !reflect.DeepEqual(roundTrip(res[k]), roundTrip(want[k])) {
 				return fmt.Sprintf("result field %s is %v, the specification expects %v", k, roundTrip(res[k]), roundTrip(want[k]))
